@@ -303,9 +303,14 @@ def xonly_inputs(rng, n, agg):
         fact = gen.fact_case(rng, n, k=gen.pick(rng, [None, None, 2]), kind="f8")
         weights = gen.weight_case(rng, n, cls=gen.pick(rng, ["none", "none", "array", "tuple", "scalar"]), dyadic=True)
         if weights["kind"] in ("array", "tuple"):
-            # strictly positive weights
+            # strictly positive weights - except that one input in four keeps its zero weights: a valid row of
+            # weight zero carries no mass, but it is not a missing row (only the missing rule is judged for cells
+            # whose weights are all zero)
             v = weights["values"]
-            weights["values"] = numpy.where(numpy.nan_to_num(v, nan=1.0, posinf=1.0) <= 0, 0.5, v)
+            if rng.random() < 0.75:
+                weights["values"] = numpy.where(numpy.nan_to_num(v, nan=1.0, posinf=1.0) <= 0, 0.5, v)
+            else:
+                weights["zero_weights_kept"] = True
         elif weights["kind"] == "scalar":
             weights["values"] = float(gen.pick(rng, [0.5, 1.0, 2.0]))
     if agg not in ("min", "max") and fact["values"].dtype.kind == "f" and not fact.get("offset") and rng.random() < 0.25:
